@@ -573,8 +573,8 @@ def minimize_lbfgsb(
                 # Reboot BFGS-Hessian
                 mats = LBFGSB_MATRICES(n)
         else:
-            # x update
-            x += steplength * d
+            # x update: the point evaluated by the line search (kept inside the box)
+            x = np.clip(x + steplength * d, lb, ub)
 
             # new evaluation -> normally, the function has been updated in
             # the linesearch step
